@@ -381,9 +381,10 @@ func cmdCheck(args []string) int {
 	if groundFail > 0 {
 		violation("ground-axioms", map[string]interface{}{"obligation": "ground-axiom-tests", "error": "an assumed ground fact is false for the real library", "output": groundOut}, true)
 	}
-	// bounded stand-ins (never counted as proved)
+	// bounded cross-check of zap.Any (thorough tier only; zap.Any is proved since session 4, this enumeration is kept as an independent
+	// test of the generated contract table against the real code; never counted as proved)
 	var bounded []*boundedResult
-	if *prop == "C03" {
+	if *prop == "C03" && *tier == "thorough" {
 		br := boundedAny(root, *repo)
 		bounded = append(bounded, br)
 		if !br.Passed {
